@@ -1361,6 +1361,44 @@ fn deep(sub: &str, n: usize, kind: &str) -> String {
         }
         "to_string" => format!("ok {}", jsonb::to_string(&deep_bin(n, kind)).len()),
         "to_pretty_string" => format!("ok {}", jsonb::to_pretty_string(&deep_bin(n, kind)).len()),
+        // C09: the path parser on a text nested n levels deep (kind: paren | exists | filter)
+        "path_parse" => {
+            let mut t: Vec<u8> = Vec::new();
+            match kind {
+                "paren" => {
+                    t.extend_from_slice(b"$?(");
+                    t.extend(std::iter::repeat(b'(').take(n));
+                    t.extend_from_slice(b"1==1");
+                    t.extend(std::iter::repeat(b')').take(n));
+                    t.push(b')');
+                }
+                "exists" => {
+                    t.extend_from_slice(b"$?(");
+                    for _ in 0..n {
+                        t.extend_from_slice(b"exists(@?(");
+                    }
+                    t.extend_from_slice(b"1==1");
+                    for _ in 0..n {
+                        t.extend_from_slice(b"))");
+                    }
+                    t.push(b')');
+                }
+                _ => {
+                    t.push(b'$');
+                    for _ in 0..n {
+                        t.extend_from_slice(b"?(@");
+                    }
+                    t.extend_from_slice(b"?(1==1)");
+                    for _ in 0..n {
+                        t.extend_from_slice(b" == 1)");
+                    }
+                }
+            }
+            match jsonb::jsonpath::parse_json_path(&t) {
+                Ok(_) => "ok".into(),
+                Err(_) => "err Other".into(),
+            }
+        }
         "compare" => {
             let b = deep_bin(n, kind);
             match jsonb::compare(&b, &b) {
